@@ -35,7 +35,13 @@ UNIQ = re.compile(u'k[0-9]+z')
 # converter purged) were repaired in /repo by af61005 and e7e9e0f and are ordinary failing signatures now.
 # Still open after af61005: draw:line and draw:g (a group of shapes) hold text too, but are not in odf2moinmoin's
 # CONTAINER_TAGS - a child of office:text is skipped, inside running text draw:g becomes ' {draw:g} ' and draw:line nothing.
-PENDING = set()      # (round 6: ten loss classes were pending here until the repairs af61005, e7e9e0f and the draw:line / draw:g follow-up)
+# Round 7 (histories: one converter object for several documents): ODF2XHTML.load() does not reset the object, so the
+# notes of the documents converted before are listed again behind the notes of the current one - their text:s blanks make
+# the output hold MORE non-breaking spaces than the current document asks for (reuse-/repeat-x-space-foreign) and the output
+# holds words of another document (…-x-foreign-text); ODF2MoinMoin.load() keeps self.footnotes likewise (…-m-foreign-text).
+# The text of the current document is complete; reported to the integrator, counted until decided.
+PENDING = set(['reuse-x-space-foreign', 'repeat-x-space-foreign', 'reuse-x-foreign-text', 'repeat-x-foreign-text',
+               'reuse-m-foreign-text', 'repeat-m-foreign-text'])      # (round 6: ten loss classes were pending here until the repairs af61005, e7e9e0f and the draw:line / draw:g follow-up)
 
 
 # ---------------------------------------------------------------- reading the converters' output (expat only)
@@ -364,13 +370,16 @@ def convert_own(spec, wd, pretty_moin=False):
     return convert_paths(xpath, mpath)
 
 
-def oracle(spec, res, neutral_res):
-    """the property evaluated on the real outputs; returns [(signature, detail)]"""
+def oracle(spec, res, neutral_res, foreign=False):
+    """the property evaluated on the real outputs; returns [(signature, detail)].  foreign=True (histories): MORE non-breaking
+       spaces than the document's text:s elements ask for are reported as x-space-foreign (blanks of another document)"""
     fails = []
     feats = c18gen.features(spec)
     main, notes = c18gen.visible(spec)
     total_c = sum(e[2] for e in main if e[0] == 'sep' and e[1] == 's') + sum(e[2] for nb in notes for e in nb if e[0] == 'sep' and e[1] == 's')
     for key in ('x1', 'x0'):
+        if key not in res:
+            continue                     # a history judges one converter at a time
         r = res[key]
         tag = 'css' if key == 'x1' else 'nocss'
         if r[0] == 'exc':
@@ -421,7 +430,7 @@ def oracle(spec, res, neutral_res):
                     else:
                         fails.append(('x-separator-lost', '%s: %r left no whitespace: %r' % (tag, [s[1] for s in p[1]], p[2])))
         if out.count(u'\xa0') != total_c:
-            fails.append(('x-space-count', '%s: %d non-breaking spaces for text:c summing to %d' % (tag, out.count(u'\xa0'), total_c)))
+            fails.append(('x-space-foreign' if (foreign and out.count(u'\xa0') > total_c) else 'x-space-count', '%s: %d non-breaking spaces for text:c summing to %d' % (tag, out.count(u'\xa0'), total_c)))
     if 'm' in res:
         r = res['m']
         if r[0] == 'exc':
@@ -470,6 +479,130 @@ def check_own(spec, wd, pretty_moin=False):
     return res, fails
 
 
+# ---------------------------------------------------------------- histories: ONE converter object, several documents / calls
+# A history is plain JSON data:
+#   {'target': 'x', 'css': bool, 'docs': [spec], 'ops': [['odf2xhtml', i] | ['load', i] | ['xhtml']]}
+#        ODF2XHTML(generate_css=css), then per op  .odf2xhtml(file i) / .load(file i) / .xhtml()
+#   {'target': 'm', 'docs': [spec], 'ops': [['load', i] | ['toString']]}
+#        ODF2MoinMoin(file 0), then per op  .load(file i) / .toString()
+# Every string a conversion call returns is judged by oracle() against the description of the document that is loaded at
+# that moment.  A call is 'fresh' (first conversion on a new object: judged by the main loop already), 'repeat' (the same
+# document converted again without another document in between) or 'reuse' (another document was converted / loaded by
+# this object before): the class of the failure is part of the signature.  Failures the fresh conversion of the same
+# document shows too are not repeated here.
+def gen_history(rng, pool, text_pool):
+    r = rng
+    target = 'm' if (text_pool and r.random() < 0.5) else 'x'
+    src = text_pool if target == 'm' else pool
+    k = r.choice([2, 2, 2, 3])
+    docs = [r.choice(src) for _ in range(k)]
+    ops = []
+    if target == 'm':
+        for i in range(1, k + 1):
+            if r.random() < 0.75:
+                ops.append(['toString'])
+                if r.random() < 0.2:
+                    ops.append(['toString'])
+            if i < k:
+                ops.append(['load', i])
+        if ops[-1] != ['toString']:
+            ops.append(['toString'])
+        return {'target': 'm', 'docs': docs, 'ops': ops}
+    for i in range(k):
+        if r.random() < 0.6:
+            ops.append(['odf2xhtml', i])
+        else:
+            ops.append(['load', i])
+            if i == k - 1 or r.random() < 0.8:
+                ops.append(['xhtml'])
+        if r.random() < 0.15:
+            ops.append(['xhtml'])
+    return {'target': 'x', 'css': r.random() < 0.5, 'docs': docs, 'ops': ops}
+
+
+def run_history(hist, paths):
+    """the calls of a history on the real converters: [(op index, document index, class, result)] for the calls that return a
+       conversion; stops at the first exception (the state of a converter after an exception is not part of the property)"""
+    from odf.odf2xhtml import ODF2XHTML
+    from odf.odf2moinmoin import ODF2MoinMoin
+    blobs = [json.dumps(d, sort_keys=True) for d in hist['docs']]
+    out = []
+    cur, seen_other, converted = None, False, False      # loaded document; another document before it; converted since loaded
+    try:
+        if hist['target'] == 'm':
+            conv = ODF2MoinMoin(paths[0]); cur = 0
+        else:
+            conv = ODF2XHTML(generate_css=hist['css'])
+    except Exception as e:
+        return [(-1, 0, 'fresh', ('exc', type(e).__name__, str(e)[:120]))]
+    for n, op in enumerate(hist['ops']):
+        gives = op[0] in ('toString', 'xhtml', 'odf2xhtml')
+        try:
+            if op[0] in ('load', 'odf2xhtml'):
+                if cur is not None and blobs[op[1]] != blobs[cur]:
+                    seen_other = True
+                if cur is None or blobs[op[1]] != blobs[cur]:
+                    converted = False
+                cur = op[1]
+            if op[0] == 'load':
+                conv.load(paths[op[1]]); continue
+            if cur is None:
+                continue                       # xhtml() before anything was loaded: not a conversion of a document
+            if op[0] == 'odf2xhtml':
+                val = conv.odf2xhtml(paths[op[1]])
+            elif op[0] == 'xhtml':
+                val = conv.xhtml()
+            else:
+                val = conv.toString()
+            r = ('ok', val)
+        except Exception as e:
+            r = ('exc', type(e).__name__, str(e)[:120])
+        if gives or r[0] == 'exc':
+            cls = 'repeat' if converted else ('reuse' if seen_other else 'fresh')
+            out.append((n, cur if cur is not None else op[1], cls, r))
+            converted = True
+        if r[0] == 'exc':
+            break
+    return out
+
+
+def judge_history(hist, wd, cache, fresh):
+    """[(signature, detail)] of a history.  cache: description blob -> saved file; fresh: blob -> signatures of the fresh conversion"""
+    paths = []
+    for d in hist['docs']:
+        b = json.dumps(d, sort_keys=True)
+        if b not in cache:
+            p = wd.path(EXT[d['kind']]); c18gen.build(d).save(p); cache[b] = p
+        paths.append(cache[b])
+    fails = []
+    key = 'm' if hist['target'] == 'm' else ('x1' if hist['css'] else 'x0')
+    for n, di, cls, r in run_history(hist, paths):
+        if cls == 'fresh':
+            continue
+        d = hist['docs'][di]
+        b = json.dumps(d, sort_keys=True)
+        if b not in fresh:
+            fresh[b] = set(f[0] for f in check_spec(d, wd)[2])
+        for sig, detail in oracle(d, {key: r}, {}, foreign=True):
+            if sig in fresh[b]:
+                continue
+            what = ('call %d %r on document %d %s' % (n, hist['ops'][n] if n >= 0 else 'constructor', di,
+                    'again' if cls == 'repeat' else 'after this object converted / loaded another document'))
+            fails.append(('%s-%s' % (cls, sig), '%s: %s' % (what, detail)))
+        # text of ANOTHER document of the history in this conversion (unique words that the loaded document does not have)
+        if r[0] == 'ok' and isinstance(r[1], str):
+            try:
+                txt = r[1] if key == 'm' else body_text(xhtml_events(r[1]))
+            except xml.parsers.expat.ExpatError:
+                txt = u''
+            others = u' '.join(json.dumps(o, sort_keys=True) for o in hist['docs'])
+            alien = [w for w in UNIQ.findall(txt) if (u'"%s' % w) not in b and w not in b and w in others]
+            if alien:
+                fails.append(('%s-%s-foreign-text' % (cls, key[0]), 'call %d %r on document %d: the output holds %r of another document this object '
+                              'converted before' % (n, hist['ops'][n], di, alien[:3])))
+    return fails
+
+
 def run(chk, replay=None):
     chk.rule = ('seeded documents over the supported vocabulary (p, h with/without level, span, a, nested lists, tables with spans, '
                 'frames with text boxes / images, notes, s/tab/line-break, bookmarks, sections, dc/meta; block-level containers: frames / '
@@ -479,6 +612,13 @@ def run(chk, replay=None):
                 'with odfpy and converted from the file; non-trivial = document with at least one adversarial string and one nested element')
     wd = Workdir()
     try:
+        if replay is not None and 'history' in replay.get('input', {}):
+            hist = replay['input']['history']
+            fails = judge_history(hist, wd, {}, {})
+            known = set(k['sig'] for k in chk.known)
+            for f in fails:
+                print('replay: %s %s: %s' % ('KNOWN' if f[0] in known else 'PENDING' if f[0] in PENDING else 'FAIL', f[0], f[1]))
+            return 1 if [f for f in fails if (f[0] not in known and f[0] not in PENDING) or f[0] == replay.get('signature')] else 0
         if replay is not None:
             spec = replay['input']['spec'] if 'spec' in replay.get('input', {}) else replay['input']
             res, nres, fails = check_spec(spec, wd)
@@ -582,7 +722,7 @@ def run_main(chk, wd):
     chk.obligation('translator: nsdict is injective (prefix:local identifies the qualified name)', m['nsdict_injective'])
     default_styles = m['default_styles']
     # 2 prove
-    chk.prove(modules=['OdfModel.Props.C18', 'OdfModel.XhtmlLemmas', 'OdfModel.XhtmlText', 'OdfModel.XhtmlEscape', 'OdfModel.MoinLemmas', 'OdfModel.Props.C18Moin'],
+    chk.prove(modules=['OdfModel.Props.C18', 'OdfModel.XhtmlLemmas', 'OdfModel.XhtmlText', 'OdfModel.XhtmlEscape', 'OdfModel.MoinLemmas', 'OdfModel.Props.C18Moin', 'OdfModel.Props.C18Spell'],
               drivers=['drv_xhtml'])
     chk.notes.append('translate+prove %.1fs' % (time.time() - t0))
     t0 = time.time()
@@ -595,6 +735,7 @@ def run_main(chk, wd):
         specs.append((spec, g, None))
     pending = []
     pending_seen = {}
+    cache, fresh, pool = {}, {}, []       # for the histories: saved file / signatures of the fresh conversion per description
 
     def report(sig, case, detail, name=None):
         """a failure of the oracle: a violation, unless its class is one of the PENDING ones (counted, first witness noted)"""
@@ -620,6 +761,7 @@ def run_main(chk, wd):
                 chk.count('conv_%s_%s' % (k, res[k][0]))
         for sig, detail in fails:
             report(sig, {'spec': spec}, detail, name)
+        cache[blob] = res['path']; fresh[blob] = set(f[0] for f in fails); pool.append(spec)
         routes = ((spec, res),) + (((c18gen.neutral(spec), nres),) if (nres is not res and 'path' in nres) else ())
         # route B: every third document (and the whole corpus) also goes through the harness's own serialiser
         if g is None or ndoc % 3 == 0:
@@ -633,6 +775,19 @@ def run_main(chk, wd):
         for sp, r in routes:
             for key, line in corr_lines(r, default_styles):
                 pending.append((sp, r, key, line))
+    # histories: one converter object for several documents / several calls
+    th = time.time()
+    text_pool = [d for d in pool if d['kind'] == 'text']
+    hists = [(h, n) for n, h in HISTORIES]
+    for i in range(400 if chk.tier == 'thorough' else 70):
+        hists.append((gen_history(chk.rng, pool, text_pool), None))
+    for hist, name in hists:
+        hfails = judge_history(hist, wd, cache, fresh)
+        chk.case('history ' + json.dumps(hist, sort_keys=True), nontrivial=len(hist['docs']) > 1)
+        chk.count('history_' + hist['target']); chk.count('history_calls', len(hist['ops']))
+        for sig, detail in hfails:
+            report(sig, {'history': hist}, detail, name)
+    chk.notes.append('histories %.1fs' % (time.time() - th))
     chk.notes.append('oracle phase %.1fs' % (time.time() - t0))
     for sig in sorted(pending_seen):
         chk.notes.append('PENDING finding %s (not failing the run): corpus document %r: %s' % (sig, pending_seen[sig][0], pending_seen[sig][1][:160]))
@@ -720,4 +875,51 @@ CORPUS = [
                                ['shape', 'circle', None, None, [P(T(u'k9z'))]]])),
     ('shapes-on-a-page', D([['page', u'pg', [['shape', 'custom', None, None, [P(T(u'k1z'))]], ['frame', None, None, ['textbox', [P(T(u'k2z'))]]],
                                               ['shape', 'rect', None, None, [P(T(u'k3z'))]]]]], kind='pres')),
+]
+
+
+def spelling_sweep():
+    """the style names of the producers' default templates in every spelling (c18gen.spellings) on paragraphs, headings and
+       spans - referenced only, and declared (common / automatic, with properties so that a rule is written)"""
+    n = [0]
+
+    def w():
+        n[0] += 1
+        return u'k%dz' % n[0]
+    ps = [nm for d in c18gen.DISPLAY_P for nm in c18gen.spellings(d)]
+    ss = [nm for d in c18gen.DISPLAY_S for nm in c18gen.spellings(d)]
+
+    def decl(names, fam):
+        out, seen = [], set()
+        for i, nm in enumerate(names):
+            if u' ' in nm or nm in seen:
+                continue
+            seen.add(nm)
+            out.append({'fam': fam, 'name': nm, 'auto': i % 2 == 1, 'parent': None, 'bold': True, 'italic': i % 3 == 0, 'color': None, 'margin': None})
+        return out
+    docs = []
+    for tag, styles in (('referenced', []), ('declared', decl(ps, 'paragraph') + decl(ss, 'text'))):
+        docs.append(('spellings-p-' + tag, D([['p', nm, [T(w())]] for nm in ps], styles=styles)))
+        docs.append(('spellings-h-' + tag, D([['h', 1 + i % 7, nm, [T(w())]] for i, nm in enumerate(ps)], styles=styles)))
+        docs.append(('spellings-span-' + tag, D([P(T(w()), ['span', nm, [T(w())]], T(w())) for nm in ss], styles=styles)))
+    docs.append(('spellings-in-cells-and-items', D([['list', None, [[['p', nm, [T(w())]]] for nm in ps[:40]], None],
+        ['table', u't', None, [[None, None]], [[None, [['cell', {'rs': None, 'cs': None, 'style': None}, [['p', nm, [T(w())]]]]]] for nm in ps[40:80]], 0]])))
+    return docs
+
+
+CORPUS += spelling_sweep()
+
+_A = D([['h', 1, None, [T(u'k1z')]], P(T(u'k2z'), ['note', 'footnote', u'1', [P(T(u'k3z'))]], T(u'k4z')), ['list', None, [[P(T(u'k5z'))]], None]], meta={'title': u'k6z'})
+_B = D([P(T(u'k11z')), ['table', u't', None, [[None, None]], [[None, [['cell', {'rs': None, 'cs': None, 'style': None}, [P(T(u'k12z'))]]]]], 0],
+        ['h', 2, None, [T(u'k13z')]], P(T(u'k14z'), ['note', 'endnote', u'i', [P(T(u'k15z'))]])])
+_C = D([['table', u't', None, [[None, None]], [[None, [['cell', {'rs': None, 'cs': None, 'style': None}, [P(T(u'k21z'))]]]]], 0]], kind='sheet')
+HISTORIES = [
+    ('moin-two-documents', {'target': 'm', 'docs': [_A, _B], 'ops': [['toString'], ['load', 1], ['toString']]}),
+    ('moin-load-without-converting-first', {'target': 'm', 'docs': [_A, _B], 'ops': [['load', 1], ['toString']]}),
+    ('moin-back-to-the-first', {'target': 'm', 'docs': [_A, _B], 'ops': [['toString'], ['load', 1], ['toString'], ['load', 0], ['toString']]}),
+    ('moin-twice', {'target': 'm', 'docs': [_A], 'ops': [['toString'], ['toString']]}),
+    ('xhtml-two-documents-css', {'target': 'x', 'css': True, 'docs': [_A, _B, _C], 'ops': [['odf2xhtml', 0], ['odf2xhtml', 1], ['odf2xhtml', 2], ['odf2xhtml', 0]]}),
+    ('xhtml-two-documents-nocss', {'target': 'x', 'css': False, 'docs': [_B, _A], 'ops': [['odf2xhtml', 0], ['odf2xhtml', 1]]}),
+    ('xhtml-load-and-xhtml', {'target': 'x', 'css': True, 'docs': [_A, _B], 'ops': [['load', 0], ['xhtml'], ['load', 1], ['xhtml'], ['xhtml']]}),
+    ('xhtml-twice', {'target': 'x', 'css': False, 'docs': [_A], 'ops': [['odf2xhtml', 0], ['odf2xhtml', 0], ['xhtml']]}),
 ]
